@@ -152,7 +152,7 @@ def t_internal_match(ex):
 
 
 # ----------------------------------------------------------------- bounded stand-in: whole queries ----
-R1 = {"a": {"x": ["1", "2"], "y": ["1"]}, "b": {"x": ["1"], "z": ["3"]}, "c": {}}
+R1 = {"a": {"x": ["1", "2"], "y": ["1"], "e": []}, "b": {"x": ["1"], "z": ["3"]}, "c": {}}   # a/e: a listed name that holds no package
 R2 = {"a": {"x": ["3"], "w": ["1"]}, "d": {"x": ["1"]}}
 
 
@@ -261,7 +261,7 @@ def enum_queries(seed):
                 fails.append({"model": {"restriction": str(restr), "query": "itermatch(versioned=False)", "unversioned_attribute_restriction": got == [] and bool(want)},
                               "detail": f"itermatch({restr}, versioned=False) yields {got}; the matching category/package pairs are {want}"})
     for restr in (packages.AlwaysTrue, packages.AlwaysFalse):
-        want = sorted((c, p) for c, pk in R1.items() for p in pk) if restr is packages.AlwaysTrue else []
+        want = sorted((c, p) for c, pk in R1.items() for p in pk if pk[p]) if restr is packages.AlwaysTrue else []
         got = sorted(tuple(x) for x in r.itermatch(restr, versioned=False))
         cases += 1
         if got != want and len(fails) < 4:
